@@ -17,10 +17,10 @@ RTOL = 1e-10
 
 PIX = {"None": None, "3": (0.1, 0.2, 0.3), "13": [(0.1, 0.2, 0.3)], "23": [(0.1, 0.2, 0.3), (-0.2, 0.1, 0)],
        "223": [[(0.1, 0.2, 0.3), (-0.2, 0.1, 0)], [(0, 0, 0.3), (0.3, 0, 0)]]}
-KINDS = ["static_id", "static_rot", "transl", "rotpath", "rot_pm", "rot_return", "rot_half"]
+KINDS = ["static_id", "static_rot", "transl", "rotpath", "rot_pm", "rot_return", "rot_half", "static_tiny", "rot_tiny"]
 HANDS = ["right", "left"]
 AGGS = [None, "mean", "min", "max", "median", "std"]
-SECOND_MENU = [("23", "rotpath", "left"), ("None", "static_id", "right"), ("223", "transl", "right"),
+SECOND_MENU = [("23", "rot_tiny", "left"), ("23", "rotpath", "left"), ("None", "static_id", "right"), ("223", "transl", "right"),
                ("3", "rot_pm", "left"), ("13", "static_rot", "right"), ("23", "rot_return", "right"),
                ("223", "static_id", "left"), ("None", "rot_half", "left")]
 THIRD_MENU = [("23", "rot_pm", "left"), ("None", "static_rot", "right"), ("223", "rotpath", "right")]
@@ -52,6 +52,13 @@ def mk_sensor(pix, kind, hand, L, k=0):
     elif kind == "rot_return":  # orientation returns to its start value
         angs = [0, 30, 0][:L]
         s.orientation = _rotax((0, 1, 0), angs if L > 1 else 25)
+    elif kind == "static_tiny":  # misaligned by 0.3 deg: rotated, however little
+        s.rotate_from_angax(0.3, (1, -2, 0.5))
+    elif kind == "rot_tiny":     # wobbling by +-0.2 deg and less along a translating path
+        angs = [0.2, -0.2, 0.05][:L]
+        s.orientation = _rotax((0.3, 1, -0.2), angs if L > 1 else angs[0])
+        if L > 1:
+            s.position = [(3 + 0.1 * i, 2, 1 - 0.05 * i) for i in range(L)]
     elif kind == "rot_half":  # unit rotation first, rotated later (the 'unrotated' shortcut must not apply)
         angs = [0, 0, 50][:L]
         s.orientation = _rotax((1, 0, 0), angs if L > 1 else 0)
